@@ -3136,6 +3136,7 @@ status_t MessageField :: TemplatedUnflatten(Message & unflattenTo, const String 
          if (doCustomMessageUnflatten)
          {
             MRETURN_ON_ERROR(unflat.SeekRelative(sizeof(uint32)));  // account for itemSize field read
+            if (itemSize > calcSizeUnflat.GetNumBytesAvailable()) return B_BAD_DATA;  // the sub-Message can't be bigger than the bytes we have left
 
             // Gotta use custom-unflattening-logic here, since the regular MessageField::Unflatten() expects
             // to see the traditional full-metadata-included data-format, but our sub-Message's data is
